@@ -216,11 +216,92 @@ func paramOfValue(v ssa.Value) *ssa.Parameter {
 	return nil
 }
 
+// helperValidates: c calls an unexported helper of the same package that hands back a descriptor (or
+// digest) next to an error, every success return of the helper returns a value whose digest passed
+// Validate() inside the helper, and ap is the digest of that result at the call site. The error of
+// such a call then stands for the error of the Validate().
+var helperValDepth int
+
+func helperValidates(c *ssa.Call, ap string) bool {
+	h := core.CalleeFn(c)
+	if h == nil || h == c.Parent() || len(h.Blocks) == 0 || h.Object() == nil || h.Object().Exported() || core.FuncPkg(h) != core.FuncPkg(c.Parent()) || helperValDepth > 1 {
+		return false
+	}
+	res := h.Signature.Results()
+	if res.Len() < 2 || !types.Identical(res.At(res.Len()-1).Type(), types.Universe.Lookup("error").Type()) {
+		return false
+	}
+	for k := 0; k < res.Len()-1; k++ {
+		isDesc := core.IsModNamed(res.At(k).Type(), "types/descriptor", "Descriptor")
+		if !isDesc && !isDigestType(res.At(k).Type()) {
+			continue
+		}
+		// where result k lives at the call site
+		match := false
+		for _, ref := range *c.Referrers() {
+			ex, ok := ref.(*ssa.Extract)
+			if !ok || ex.Index != k {
+				continue
+			}
+			paths := []string{accessPath(ex)}
+			for _, r2 := range *ex.Referrers() {
+				if st, ok := r2.(*ssa.Store); ok && st.Val == ssa.Value(ex) {
+					paths = append(paths, accessPath(st.Addr))
+				}
+			}
+			for _, pth := range paths {
+				if pth == "" {
+					continue
+				}
+				if isDesc {
+					pth += ".Digest"
+				}
+				if pth == ap {
+					match = true
+				}
+			}
+		}
+		if !match {
+			continue
+		}
+		// every success return of the helper returns a validated digest in result k
+		all, n := true, 0
+		for _, ret := range core.Returns(h) {
+			if !core.IsNilConst(core.ReturnOperand(ret, res.Len()-1)) {
+				continue
+			}
+			n++
+			rp := accessPath(core.ReturnOperand(ret, k))
+			if rp == "" {
+				all = false
+				break
+			}
+			if isDesc {
+				rp += ".Digest"
+			}
+			helperValDepth++
+			ok := validatedIn(h, rp, ret)
+			helperValDepth--
+			if !ok {
+				all = false
+				break
+			}
+		}
+		if all && n > 0 {
+			return true
+		}
+	}
+	return false
+}
+
 func validatedIn(fn *ssa.Function, ap string, at ssa.Instruction) bool {
 	isValidate := func(c *ssa.Call) bool {
 		cal := core.Callee(c)
-		if cal == nil || cal.Name() != "Validate" {
+		if cal == nil {
 			return false
+		}
+		if cal.Name() != "Validate" {
+			return helperValidates(c, ap)
 		}
 		recv := core.CallArg(c, 0)
 		return recv != nil && isDigestType(recv.Type()) && accessPath(recv) == ap
